@@ -370,13 +370,12 @@ def check_param_grads(rec, label, opt, outputs, dl_douts, clipped: bool):
         cmp(at_step, exp, f"oracle-{tag}-gradient-is-not-gradient-of-objective", "parameter gradient at optimizer.step differs from J^T * closed-form dL/d(outputs)")
     # learning rate
     m = rec.model
-    lr0, linear = rec.cfg["lr0"], rec.cfg["linear_lr"]
-    progress = max(0.0, 1.0 - m.num_timesteps / rec.total)
-    want = lr0 * progress if linear else lr0
+    progress = max(0.0, 1.0 - m.num_timesteps / rec.total)   # rec.total: timesteps at the start of this learn() call (0 after a reset) + its total_timesteps
+    want = lr_value(rec.cfg, progress)
     for g in opt.param_groups:
         if not close(g["lr"], want, 0.0) and abs(g["lr"] - want) > 1e-12:
             rec.prob(f"oracle-{tag}-learning-rate", f"param group lr {g['lr']!r}, schedule(progress={progress}) = {want!r}")
-    rec.expr(f"{tag}-lr", f"ckll (apply_lr (fun p => if {coq_bool(linear)} then {fq(lr0)} * p else {fq(lr0)}) (progress_Q {fq(m.num_timesteps)} {fq(rec.total)}) "
+    rec.expr(f"{tag}-lr", f"ckll (apply_lr {lr_coq(rec.cfg)} (progress_Q {fq(m.num_timesteps)} {fq(rec.total)}) "
                           f"[{fql([0.0] * len(opt.param_groups))}]) [{fql([g['lr'] for g in opt.param_groups])}]")
 
 
@@ -619,7 +618,7 @@ def analyse_sac(rec, label, opt):
         rec.expr("sac-temperature", f"let R := sac_temp_Q {fq(la)} {fq(H)} {fql(lp)} in (ck (fst R) {fq(t_loss)}, ck (snd R) {fq(g)})")
         # lr of the temperature optimizer
         progress = max(0.0, 1.0 - m.num_timesteps / rec.total)
-        want = cfg["lr0"] * progress if cfg["linear_lr"] else cfg["lr0"]
+        want = lr_value(cfg, progress)
         if abs(opt.param_groups[0]["lr"] - want) > 1e-9 + 1e-6 * abs(want):
             rec.prob("oracle-sac-ent_coef-learning-rate", f"lr {opt.param_groups[0]['lr']} vs schedule {want}")
         rec.count("sac_temperature_steps")
@@ -805,6 +804,19 @@ def gen_configs(rng, tier):
         dict(algo="a2c", continuous=False, n_steps=5, normalize_advantage=False, ent_coef=0.01, vf_coef=0.5, max_grad_norm=0.5, gamma=0.95, total=15, share=False, custom_extractor=True),
         dict(algo="ppo", continuous=False, n_steps=6, batch_size=6, n_epochs=1, clip_range=0.2, clip_range_vf=0.5, normalize_advantage=True, ent_coef=0.0, vf_coef=0.7,
              max_grad_norm=1.0, gamma=0.9, total=12, share=False, image_dict=True),
+        # several learn() calls on one model (continued and restarted), non-constant schedules incl. a non-monotone one
+        dict(algo="ppo", continuous=False, n_steps=4, batch_size=4, n_epochs=1, clip_range=0.2, clip_range_vf=None, normalize_advantage=True, ent_coef=0.0, vf_coef=0.5, max_grad_norm=0.5,
+             gamma=0.99, total=8, share=True, schedule="vee", learn_calls=[[8, True], [8, False]], max_opt_steps=8),
+        dict(algo="a2c", continuous=True, n_steps=4, normalize_advantage=False, ent_coef=0.0, vf_coef=0.5, max_grad_norm=0.5, gamma=0.99, total=8, schedule="linear",
+             learn_calls=[[8, True], [12, False], [8, True]], max_opt_steps=8),
+        dict(algo="dqn", continuous=False, batch_size=4, gamma=0.9, max_grad_norm=10.0, total=14, learning_starts=6, train_freq=2, gradient_steps=1, schedule="linear",
+             learn_calls=[[14, True], [10, False]], max_opt_steps=12),
+        dict(algo="sac", continuous=True, batch_size=4, gamma=0.9, ent_coef="auto", n_critics=2, total=12, learning_starts=6, train_freq=2, gradient_steps=1, schedule="vee",
+             learn_calls=[[12, True], [8, False]], max_opt_steps=24),
+        dict(algo="td3", continuous=True, batch_size=4, gamma=0.9, n_critics=2, policy_delay=2, target_policy_noise=0.2, target_noise_clip=0.5, total=12, learning_starts=6, train_freq=2,
+             gradient_steps=1, schedule="linear", learn_calls=[[12, True], [8, False], [8, True]], max_opt_steps=20),
+        dict(algo="ddpg", continuous=True, batch_size=4, gamma=0.9, n_critics=1, policy_delay=1, target_policy_noise=0.1, target_noise_clip=0.0, total=12, learning_starts=6, train_freq=2,
+             gradient_steps=1, schedule="vee", learn_calls=[[12, True], [8, False]], max_opt_steps=16),
     ]
     out = []
     reps = 1 if tier == "quick" else 10
@@ -814,7 +826,7 @@ def gen_configs(rng, tier):
             c.setdefault("lr0", lr())
             c.setdefault("linear_lr", False)
             c["seed"] = rng.randint(0, 10**6)
-            c["max_opt_steps"] = 9 if tier == "quick" else 30
+            c["max_opt_steps"] = max(c.get("max_opt_steps", 0), 9 if tier == "quick" else 30)
             if rep > 0:
                 c["gamma"] = rng.choice([0.9, 0.95, 0.99, 0.8])
                 if "batch_size" in c:
@@ -840,6 +852,23 @@ def tiny_extractor_class():
     return TinyExtractor
 
 
+def lr_value(cfg, progress):
+    """the configured schedule evaluated at progress_remaining"""
+    kind = cfg.get("schedule", "linear" if cfg.get("linear_lr") else "const")
+    lr0 = cfg["lr0"]
+    if kind == "linear":
+        return lr0 * progress
+    if kind == "vee":          # a non-monotone user schedule
+        return lr0 * (0.25 + abs(2 * progress - 1))
+    return lr0
+
+
+def lr_coq(cfg):
+    kind = cfg.get("schedule", "linear" if cfg.get("linear_lr") else "const")
+    q = fq(cfg["lr0"])
+    return {"linear": f"(fun p => {q} * p)", "vee": f"(fun p => {q} * ((1 # 4) + Qabs (2 * p - 1)))", "const": f"(fun p => {q})"}[kind]
+
+
 def build_model(cfg):
     import torch as th
 
@@ -853,7 +882,8 @@ def build_model(cfg):
 
         env = DummyVecEnv([(lambda k=k: make_env(cfg["continuous"], cfg["seed"] + k, cfg.get("reward_scale", 1.0))) for k in range(cfg["n_envs"])])
     lr0 = cfg["lr0"]
-    lr = (lambda p: lr0 * p) if cfg["linear_lr"] else lr0
+    kind = cfg.get("schedule", "linear" if cfg.get("linear_lr") else "const")
+    lr = lr0 if kind == "const" else (lambda p: lr_value(cfg, p))
     pk = {"net_arch": [8]}
     common_kw = dict(learning_rate=lr, seed=cfg["seed"], device="cpu", verbose=0, gamma=cfg["gamma"])
     if algo == "ppo":
@@ -915,7 +945,10 @@ def run_config(cfg):
         check_sac_setup(rec, m, cfg)
     undo = install(rec)
     try:
-        m.learn(total_timesteps=cfg["total"])
+        for total, reset in cfg.get("learn_calls", [[cfg["total"], True]]):
+            # "as configured": progress_remaining counts against the timesteps at the start of this call (0 after a reset) plus its total
+            rec.total = (0 if reset else int(m.num_timesteps)) + total
+            m.learn(total_timesteps=total, reset_num_timesteps=bool(reset))
     except Exception as e:
         rec.prob(f"oracle-{cfg['algo']}-learn-exception", f"{type(e).__name__}: {e}")
     finally:
